@@ -17,7 +17,7 @@
                     theta-hat_{i(j)} > 0 for (i,j) = (1,2),(2,3),(3,1);
                     zeta^i_{j(k)} > 0 iff j = i+1 or k = i+2 (cyclically), i in {1,2,3}. *)
 From AV Require Import DenR PhspMath Dpd.
-From AVchk Require Import Gen_C19 C19_lemmas C19_lemmas2.
+From AVchk Require Import Gen_C19 Gen_C19_dpd C19_lemmas C19_lemmas2 C19_lemmas3.
 Open Scope R_scope.
 
 (* ---------- which tuples raise (all 16 / 16 / 64 tuples) ---------- *)
@@ -232,6 +232,21 @@ Theorem C19_theta12_equal_masses_substituted :
   = acos (- cosf (vadd (V4 E1 x1 y1 z1) (V4 E2 x2 y2 z2)) (V4 E1 x1 y1 z1) (V4 E3 x3 y3 z3)).
 Proof. exact theta12_equal_masses. Qed.
 
+(* ---------- builder side: what HelicityAmplitudeBuilder.formulate() substitutes for the mass
+   symbols of the DPD angles.  Over the regenerated lattice (2 corpus reactions x {all transitions,
+   each single-subsystem thinning} x reference subsystems 1,2,3 x option sets default / scalar_m0 /
+   stable ids / both): every mass kinematic variable m_S is InvariantMass(ArraySum(..)) over EXACTLY
+   the momenta named in S (m_0: p1,p2,p3), and every mass parameter default (only m_i, m_0, m_123
+   may be parameters) is the mass of the particle it names. ---------- *)
+Theorem C19_dpd_model_mass_definitions :
+  (Nat.ltb 0 (length dpd_mass_defs) = true /\ forallb mass_def_ok dpd_mass_defs = true) /\
+  (forall id digits t, In (id, digits, t) dpd_mass_defs -> t = invariant_mass_of (named_ids digits)).
+Proof. exact (conj dpd_mass_defs_ok dpd_mass_defs_spec). Qed.
+
+Theorem C19_dpd_model_mass_parameters :
+  Nat.ltb 0 (length dpd_mass_params) = true /\ forallb mass_param_ok dpd_mass_params = true.
+Proof. exact dpd_mass_params_ok. Qed.
+
 (* ---------- the hypotheses are satisfiable: a concrete interior event (one massless particle) *)
 Example C19_event_exists :
   is_event (3/2) (-1) (-1) 0  1 1 0 0  (5/4) 0 1 0
@@ -261,4 +276,6 @@ Print Assumptions C19_acos_args_in_range_zeta.
 Print Assumptions C19_kallen_equal_arguments.
 Print Assumptions C19_equal_mass_substitution_all.
 Print Assumptions C19_theta12_equal_masses_substituted.
+Print Assumptions C19_dpd_model_mass_definitions.
+Print Assumptions C19_dpd_model_mass_parameters.
 Print Assumptions C19_event_exists.
